@@ -232,7 +232,11 @@ func searchPreload(t *rt.Thread, c *rt.GoCont) (rt.Cont, error) {
 	if err != nil {
 		return nil, err
 	}
-	loader := pkgTable(t.Runtime).Get(preloadKey).AsTable().Get(rt.StringValue(s))
+	preload, ok := pkgTable(t.Runtime).Get(preloadKey).TryTable()
+	if !ok {
+		return nil, errors.New("package.preload must be a table")
+	}
+	loader := preload.Get(rt.StringValue(s))
 	return c.PushingNext1(t.Runtime, loader), nil
 }
 
